@@ -24,8 +24,10 @@ def small_families(tier):
     out.append(("mutrec", gen2.family_mutrec(tier), q))
     out.append(("multirec", gen2.family_multirec(tier), q))
     out.append(("strat", gen2.family_strat(tier), q))
-    c, d = gen2.family_arith(tier)
+    c, d = gen2.family_arith(tier, part="safe")
     out.append(("arith", c, d))
+    c, d = gen2.family_arith(tier, part="risky")
+    out.append(("arith-div", c, d))
     out.append(("agg", gen2.family_agg(tier), q))
     c, d = gen2.family_aggtyped(tier)
     out.append(("aggtyped", c, d))
@@ -49,3 +51,36 @@ def c01_slice(tier, only=None):
     if only:
         fams = [f for f in fams if f[0] in only]
     return fams
+
+
+def renumber(cases, start=0):
+    """cases keep their relation suffixes; cids must only be unique within one differential() call"""
+    return cases
+
+
+def compiled_slice(tier):
+    """Slice used by the checks that pay a C++ compile per batch or multiply the slice by many
+    configurations (C02, C03, C04, C05, C06, C07, C08, C20 ...).  Still exhaustive per family, with smaller
+    alphabets: core1 = all 1-literal bodies; core2xy = all 2-literal bodies over variables x,y (no constants)."""
+    fams = []
+    q = gen.dbs_core_quick()
+    if tier == "quick":
+        fams.append(("core1", core_cases(1), q))
+        fams.append(("core2xy", core_cases(2, terms=("x", "y"), consts=(), cmp_ops=("<",)), q))
+        sm = small_families("quick")
+        for i, (n, c, d) in enumerate(sm):
+            if n == "strat":
+                sm[i] = (n, gen2.family_strat("quick", subset=("neg", "rec", "recneg")), d)
+        fams += sm
+    else:
+        fams.append(("core2", core_cases(2), q))
+        fams += small_families("quick")
+    return fams
+
+
+def take_spread(cases, n):
+    """n cases spread evenly over the (simplest-first) enumeration order: deterministic, not random."""
+    if len(cases) <= n:
+        return list(cases)
+    step = len(cases) / float(n)
+    return [cases[int(i * step)] for i in range(n)]
